@@ -551,6 +551,7 @@ pub fn run(rng: &mut Rng, tier: &str, out: &str) -> Report {
             ro_on = true;
         }
         let ro_at = rng.below(sched as u64 + 1) as usize;
+        let mut crashes = 0u64;
 
         // ---------- random schedule ----------
         for t in 0..sched {
@@ -585,7 +586,27 @@ pub fn run(rng: &mut Rng, tier: &str, out: &str) -> Report {
                     s.local_edit(rng, &cfg, p, g);
                 }
                 _ => {
-                    if kind == "multi-peer" {
+                    if kind == "multi-peer" && rng.chance(1, 5) {
+                        // peer p crashes and restarts with an EMPTY document and fresh states; its partners keep
+                        // (persist) theirs, so their last_sync names changes p no longer has: the reset path
+                        let p = rng.below(npeers as u64) as usize;
+                        let mine: Vec<usize> = (0..s.links.len()).filter(|i| s.links[*i].a == p || s.links[*i].b == p).collect();
+                        for &l in &mine {
+                            if s.links[l].connected {
+                                s.drop_link(l);
+                            }
+                        }
+                        s.docs[p] = AutoCommit::new_with_encoding(automerge::TextEncoding::UnicodeCodePoint).with_actor(gen::actor(rng, 12 + (t % 3)));
+                        s.steps.push(format!("SLoseDoc {}", p));
+                        s.log.push(format!("peer {} loses its document", p));
+                        crashes += 1;
+                        for &l in &mine {
+                            let pd = if s.links[l].a == p { 0 } else { 1 };
+                            s.new_state(l, pd, 0);
+                            s.new_state(l, 1 - pd, 1);
+                            s.links[l].connected = true;
+                        }
+                    } else if kind == "multi-peer" {
                         if s.links[li].connected {
                             s.drop_link(li);
                         } else {
@@ -724,6 +745,7 @@ pub fn run(rng: &mut Rng, tier: &str, out: &str) -> Report {
         rep.add("whole_document_messages", s.whole_doc as u64);
         rep.add("read_only_receives", s.ro_receives as u64);
         rep.add("steps", s.steps.len() as u64);
+        rep.add("peer_crashes_with_data_loss", crashes);
         rep.count(&format!("sessions_{}", kind));
         let key = fnv(s.log.join("|").as_bytes()) ^ fnv(format!("{:?}", s.universe.iter().map(|c| c.hash()).collect::<Vec<_>>()).as_bytes());
         let nontrivial = differ && s.carried > 0;
